@@ -2096,9 +2096,9 @@ impl Monitor for Ms {
     fn rule(&self) -> &'static str {
         match self.prop {
             "C03" => "seeded random histories on cw3-fixed-multisig and cw3-flex-multisig(+cw4-group) inside a cw-multi-test App: voter sets of 1-6 with weights incl. 0 and 2^61, all three threshold kinds on a grid of 9- and 18-decimal fractions (the latter judged with a one-vote tolerance), six directed scenarios incl. token-sized weights two votes short of 2/3, propose/vote(yes,no,abstain,veto)/execute/close by members and outsiders, block/time advances onto expiry-1/0/+1. After every step every proposal's status, threshold(+total) and paged ballots are read back and the status is compared with the exact reference rules (pass_final when expired, pass-for-every-completion before); ListProposals and ReverseProposals are paged to the end and every entry compared with the point query. distinct = (multisig kind, operation, outcome, target status before, target expired?, rule kind)",
-            "C05" => "same world as C03 with 3-5 concurrent proposals whose messages carry unique ids (sink pings, bank sends to fresh recipients) or call back into the multisig (Execute same/other id, Close, Vote), sink failure toggled between attempts, all executor settings. After every step the committed sink log and recipient balances are compared with the proposals that became Executed in that step; lifecycle moves, ids, content and expiry clamp are checked at every observation. distinct = (multisig kind, operation, outcome, target status before, target expired?, rule kind)",
-            "C06" => "same world as C03; fixed: voter lists with repeated addresses and zero weights; flex: group updates (add/remove/re-weight) by the group admin and strangers placed before, in the same block as, and after Propose and each Vote. The monitor keeps its own per-block shadow of the group and compares every listed ballot and total_weight with the snapshot at the start of the proposal's block; the Vote and Voter point queries and ListVoters must agree with the ballot listing / the membership after every step. distinct = (multisig kind, operation, outcome, target status before, target expired?, rule kind)",
-            _ => "cw3-flex-multisig with native or cw20 proposal deposits, refund_failed_proposals on/off: propose with right/missing/short/excess/other-denom/two-coin funds or varying cw20 allowance, vote, execute, close over up to 5 concurrent proposals; deposit-token balances of all actors and the multisig are compared before/after every call with a per-proposal ledger; at the end time jumps past every expiry and Close by a stranger must recover each failed proposal's deposit when refunds are enabled. distinct = (multisig kind, operation, outcome, target status before, target expired?, rule kind)",
+            "C05" => "same world as C03 with 3-5 concurrent proposals whose messages carry unique ids (sink pings, bank sends to fresh recipients) or call back into the multisig (Execute same/other id, Close, Vote), sink failure toggled between attempts, all executor settings incl. an `Only` address that is no valid address. After every step the committed sink log and recipient balances are compared with the proposals that became Executed in that step; lifecycle moves, ids, content and expiry clamp are checked at every observation. distinct = (multisig kind, operation, outcome, target status before, target expired?, rule kind)",
+            "C06" => "same world as C03; fixed: voter lists with repeated addresses and zero weights; flex: group updates (add/remove/re-weight) by the group admin and strangers placed before, in the same block as, and after Propose and each Vote; a fifth of the benign flex worlds have 8-30 further members (more than one listing page). The monitor keeps its own per-block shadow of the group and compares every listed ballot and total_weight with the snapshot at the start of the proposal's block; the Vote and Voter point queries and ListVoters must agree with the ballot listing / the membership after every step. distinct = (multisig kind, operation, outcome, target status before, target expired?, rule kind)",
+            _ => "cw3-flex-multisig with native or cw20 proposal deposits, refund_failed_proposals on/off: propose with right/missing/short/excess/other-denom/two-coin funds or varying cw20 allowance, vote, execute, close over up to 5 concurrent proposals, some of which pay the deposit token out of the multisig account; deposit-token balances of all actors and the multisig are compared before/after every call with a per-proposal ledger; at the end time jumps past every expiry and Close by a stranger must recover each failed proposal's deposit when refunds are enabled. distinct = (multisig kind, operation, outcome, target status before, target expired?, rule kind)",
         }
     }
     fn assumptions(&self) -> Vec<&'static str> {
